@@ -174,8 +174,10 @@ static void hx_canon(hx_buf *b, htp_connp_t *c) {
     hb_printf(b, "\nin: st=%d fn=%d prev=%d ", c->in_status, in_state_id(c, c->in_state), in_state_id(c, c->in_state_previous));
     hb_puts(b, "buf=\""); if (c->in_buf) hb_esc(b, c->in_buf, c->in_buf_size); hb_puts(b, "\" ");
     d_bstr(b, "hdr", c->in_header);
-    hb_printf(b, "cl=%lld left=%lld chl=%lld rcv=%d put=%d chunkne=%d tx=%d ", (long long) c->in_content_length, (long long) c->in_body_data_left,
-              (long long) c->in_chunked_length, c->in_data_receiver_hook == NULL ? 0 : (c->in_tx && c->in_data_receiver_hook == c->in_tx->cfg->hook_request_header_data ? 1 : 2),
+    /* HX_CANON_COARSE=1 (selftest of the merge self-check only): pretend the remaining body length is not part of the state */
+    static int coarse = -1; if (coarse < 0) coarse = getenv("HX_CANON_COARSE") != NULL;
+    hb_printf(b, "cl=%lld left=%lld chl=%lld rcv=%d put=%d chunkne=%d tx=%d ", (long long) c->in_content_length, coarse ? 0LL : (long long) c->in_body_data_left,
+              coarse ? 0LL : (long long) c->in_chunked_length, c->in_data_receiver_hook == NULL ? 0 : (c->in_tx && c->in_data_receiver_hook == c->in_tx->cfg->hook_request_header_data ? 1 : 2),
               c->put_file != NULL, c->in_chunk_count != c->in_chunk_request_index, slot_of(c, c->in_tx));
     d_decomp(b, "dec", c->req_decompressor);
     hb_printf(b, "\nout: st=%d fn=%d prev=%d ", c->out_status, in_state_id(c, c->out_state), in_state_id(c, c->out_state_previous));
@@ -196,8 +198,11 @@ static void hx_canon(hx_buf *b, htp_connp_t *c) {
         int ord = tx ? tx_ordinal(tx) : -1;
         if (ord < 0 || ord >= HX_MAXTX) continue;
         hx_txrec *r = &o->tx[ord];
-        hb_printf(b, "mon %zu: rk=%d/%d ls=%d n=%d/%d/%d em=%d/%d bl=%lld/%lld\n", i, r->rank[0], r->rank[1], r->last_status, r->n_req_complete,
-                  r->n_res_complete, r->n_tx_complete, r->end_markers[0], r->end_markers[1], (long long) r->body_len[0], (long long) r->body_len[1]);
+        /* distance of each stream from the point where the side's rank was last raised (order / order_prior), saturated above any token length */
+        int64_t rq = c->in_stream_offset - r->rank_pos[0], rs = c->out_stream_offset - r->rank_pos[1];
+        hb_printf(b, "mon %zu: rk=%d/%d ls=%d n=%d/%d/%d em=%d/%d bl=%lld/%lld rp=%d/%d\n", i, r->rank[0], r->rank[1], r->last_status, r->n_req_complete,
+                  r->n_res_complete, r->n_tx_complete, r->end_markers[0], r->end_markers[1], (long long) r->body_len[0], (long long) r->body_len[1],
+                  (int) (rq > 255 ? 255 : rq < 0 ? -1 : rq), (int) (rs > 255 ? 255 : rs < 0 ? -1 : rs));
     }
     /* sticky M-api state */
 }
